@@ -69,6 +69,23 @@ theorem from_public_point_rejects_malformed (E : Ext) (c : Curve) (x y : Int) (v
     (h : fromPublicPoint E c x y validate = .error e) : e = .malformedPoint :=
   fromPublicPoint_err E c x y validate e h
 
+/-- **point OBJECTS** (`Keys.fromPublicPointObj`: `none` = `ellipticcurve.INFINITY`, `some (x, y)` = a `PointJacobi` or
+legacy `Point` reporting these affine coordinates): INFINITY is refused with `MalformedPointError` with or without
+validation (repair F14, /repo 08e8dc9 — it was a `TypeError` before), every refusal is `MalformedPointError`, and
+acceptance is the coordinate criterion above.  (The object's own `curve()` attribute is not inspected by the code; the
+property constrains the coordinates — DESIGN §2 observations.) -/
+theorem from_public_point_object (E : Ext) (c : Curve) (hn : c.n ≠ 0) (validate : Bool) :
+    fromPublicPointObj E c none validate = .error .malformedPoint ∧
+    (∀ pt e, fromPublicPointObj E c pt validate = .error e → e = .malformedPoint) ∧
+    (∀ x y k, fromPublicPointObj E c (some (x, y)) true = .ok k ↔
+      0 ≤ x ∧ 0 ≤ y ∧ x < c.p ∧ y < c.p ∧ onCurve c x y = true ∧ (c.h ≠ 1 → E.subgroupOk c x.toNat y.toNat = true) ∧
+        k = ⟨c, x.toNat, y.toNat⟩) := by
+  refine ⟨rfl, ?_, fun x y k => from_public_point_accepts_iff_partial E c hn x y k⟩
+  intro pt e h
+  cases pt with
+  | none => simp only [fromPublicPointObj] at h; injection h with h; exact h.symm
+  | some xy => exact fromPublicPoint_err E c xy.1 xy.2 validate e h
+
 /-- the encoder's output is accepted and denotes the same point: completeness of the four forms -/
 theorem to_string_is_accepted (E : Ext) (k : VK) (hp : k.curve.p.Prime) (hodd : k.curve.p % 2 = 1) (hn : k.curve.n ≠ 0)
     (hsqrt : SqrtSpec E.sqrtModP k.curve.p) (hv : ValidPoint E k.curve k.x k.y) (enc : PointEnc)
